@@ -287,6 +287,21 @@ def _sweep(acc, shard, nshards, seed, tier):
             emit(b, "https://www.%s:8080/Page?x=1" % dom, "subdomain+port", o)
             emit(b, "HTTP://%s/PAGE?X=1" % dom.upper(), "case-flip", o)
             emit(b, "http://fr.www.%s/Page?x=1" % dom, "language-label+subdomain", o)
+    # ... and so is the public suffix under strip_suffix (one-label against multi-label suffixes)
+    for a, b2 in [("m.com", "m.co.uk"), ("mobile.de", "mobile.co.uk"), ("amp.dev", "amp.org.uk"), ("www.ck", "www.com"), ("m.fr", "m.k12.ma.us")]:
+        for pa in (False, True):
+            emit("http://%s/x?y=1" % a, "http://%s/x?y=1" % b2, "suffix-swap", {"strip_suffix": True, "platform_aware": pa})
+            emit("http://%s/x?y=1" % a, "https://fr-FR.%s:8080/x?y=1" % b2.upper(), "suffix-swap+language-label+port+case-flip", {"strip_suffix": True, "platform_aware": pa})
+    # gl / hl items at every position of a redirecting URL (in front of, between and behind the items the redirection is read from)
+    for b in ["http://www.google.com/url?sa=D&q=http://t.com/a", "http://www.google.com/url?q=http://t.com/a&sa=D", "http://site.com/out?id=7&url=http%3A%2F%2Ftarget.org%2Fp",
+              "https://www.youtube.com/redirect?event=x&q=example.com%2Fa"]:
+        head, _, query = b.partition("?")
+        items = query.split("&")
+        for o in OPTSETS:
+            for pos in range(len(items) + 1):
+                for it in (["gl=fr"], ["hl=en-GB", "gl=us"], ["HL"]):
+                    its = items[:pos] + it + items[pos:]
+                    emit(b, head + "?" + "&".join(its), "gl-hl", o)
     # hosts that would keep < 2 labels: the label must stay
     for o in OPTSETS:
         for h in ["fr.com", "de.org", "pt-br.io"]:
